@@ -692,8 +692,8 @@ def floatenum_specs(tier):
                     res.append(dict(family='floatenum', labels=ls, hw=hw, readonly=ro, clock=c))
     # labels running through every unit prefix of the table
     # (22 indices: without a read method for the index, which would square the number of states)
-    for hw, c in (('soft', 'slow'), ('w', 'fast')) if tier == 'quick' else [(h, c) for h in ('soft', 'w')
-                                                                            for c in ('slow', 'fast')]:
+    for hw, c in (('soft', 'slow'), ('soft', 'fast')) if tier == 'quick' else [(h, c) for h in ('soft', 'w')
+                                                                               for c in ('slow', 'fast')]:
         res.append(dict(family='floatenum', labels='prefixes', hw=hw, readonly=False, clock=c))
     # hardware that coerces the requested index
     if tier == 'quick':
